@@ -111,6 +111,10 @@ func SiteOf(stack string) string {
 
 // Try runs one target with panic recovery and records its outcome class.
 func (r *Rec) Try(target string, f func() error) (class string) {
+	if skipTargets[target] {
+		r.line(fmt.Sprintf("R %d %s skipped", r.id, target))
+		return "skipped"
+	}
 	r.line(fmt.Sprintf("T %d %s", r.id, target))
 	defer func() {
 		if p := recover(); p != nil {
@@ -129,6 +133,8 @@ func (r *Rec) Try(target string, f func() error) (class string) {
 	return class
 }
 
+var skipTargets = map[string]bool{}
+
 // ChildMain is the body of TestVerifC04Child.
 func ChildMain(run func(in *Input, rec *Rec)) {
 	bf := os.Getenv("VERIF_C04_BATCH")
@@ -142,6 +148,11 @@ func ChildMain(run func(in *Input, rec *Rec)) {
 		syscall.Setrlimit(syscall.RLIMIT_AS, &lim)
 	}
 	debug.SetMaxStack(verifutil.EnvInt("VERIF_C04_STACK_MB", 256) << 20)
+	for _, t := range strings.Split(os.Getenv("VERIF_C04_SKIP"), ",") {
+		if t != "" {
+			skipTargets[t] = true
+		}
+	}
 	b, err := os.ReadFile(bf)
 	if err != nil {
 		panic(err)
@@ -218,9 +229,8 @@ func parseResults(path string) *childRes {
 // Config of the parent runner.
 type Config struct {
 	Batch       int
-	BatchBaseS  int // seconds granted to a batch regardless of its size
-	PerInputMS  int // plus this per input
-	SingleS     int // timeout of the confirming single-input run (hang threshold)
+	StallS      int // a child that records no progress (no new result line) for this long hangs
+	MaxHangs    int // after this many confirmed hangs of one target the target is skipped (and reported as skipped)
 	WorkDir     string
 	ChildTest   string
 	ExtraEnv    []string
@@ -229,10 +239,9 @@ type Config struct {
 
 func DefaultConfig() Config {
 	return Config{
-		Batch:      verifutil.EnvInt("VERIF_C04_BATCH_N", 150),
-		BatchBaseS: verifutil.EnvInt("VERIF_C04_BATCH_S", 60),
-		PerInputMS: 400,
-		SingleS:    verifutil.EnvInt("VERIF_C04_HANG_S", 25),
+		Batch:     verifutil.EnvInt("VERIF_C04_BATCH_N", 150),
+		StallS:    verifutil.EnvInt("VERIF_C04_HANG_S", 12),
+		MaxHangs:  verifutil.EnvInt("VERIF_C04_MAX_HANGS", 2),
 		ChildTest:  "TestVerifC04Child",
 	}
 }
@@ -244,7 +253,7 @@ type died struct {
 
 var childSeq int
 
-func runChild(cfg Config, ins []Input, timeout time.Duration) (*childRes, *died) {
+func runChild(cfg Config, ins []Input, stall time.Duration, skip []string) (*childRes, *died) {
 	childSeq++
 	base := fmt.Sprintf("%s/c04-%d-%d", cfg.WorkDir, os.Getpid(), childSeq)
 	bf, rf, ef := base+".batch", base+".res", base+".err"
@@ -258,7 +267,8 @@ func runChild(cfg Config, ins []Input, timeout time.Duration) (*childRes, *died)
 		panic(err)
 	}
 	cmd := exec.Command(os.Args[0], "-test.run", "^"+cfg.ChildTest+"$", "-test.count=1", "-test.timeout=0")
-	cmd.Env = append(os.Environ(), "VERIF_C04_BATCH="+bf, "VERIF_C04_RESULT="+rf, "GOMEMLIMIT=2GiB", "GOTRACEBACK=all")
+	cmd.Env = append(os.Environ(), "VERIF_C04_BATCH="+bf, "VERIF_C04_RESULT="+rf, "GOMEMLIMIT=2GiB", "GOTRACEBACK=all",
+		"VERIF_C04_SKIP="+strings.Join(skip, ","))
 	cmd.Env = append(cmd.Env, cfg.ExtraEnv...)
 	cmd.Stdout = errf
 	cmd.Stderr = errf
@@ -269,21 +279,35 @@ func runChild(cfg Config, ins []Input, timeout time.Duration) (*childRes, *died)
 	done := make(chan error, 1)
 	go func() { done <- cmd.Wait() }()
 	var d *died
-	select {
-	case err := <-done:
-		if err != nil {
-			d = &died{how: "exit"}
-		}
-	case <-time.After(timeout):
-		// hang: ask the Go runtime for the goroutine dump, then kill
-		cmd.Process.Signal(syscall.SIGQUIT)
+	lastSize, lastChange := int64(-1), time.Now()
+	tick := time.NewTicker(100 * time.Millisecond)
+	defer tick.Stop()
+wait:
+	for {
 		select {
-		case <-done:
-		case <-time.After(10 * time.Second):
-			cmd.Process.Kill()
-			<-done
+		case err := <-done:
+			if err != nil {
+				d = &died{how: "exit"}
+			}
+			break wait
+		case <-tick.C:
+			if st, err := os.Stat(rf); err == nil && st.Size() != lastSize {
+				lastSize, lastChange = st.Size(), time.Now()
+			}
+			if time.Since(lastChange) < stall {
+				continue
+			}
+			// no progress: ask the Go runtime for the goroutine dump, then kill
+			cmd.Process.Signal(syscall.SIGQUIT)
+			select {
+			case <-done:
+			case <-time.After(10 * time.Second):
+				cmd.Process.Kill()
+				<-done
+			}
+			d = &died{how: "timeout"}
+			break wait
 		}
-		d = &died{how: "timeout"}
 	}
 	errf.Close()
 	if d != nil {
@@ -303,7 +327,7 @@ func runChild(cfg Config, ins []Input, timeout time.Duration) (*childRes, *died)
 	return parseResults(rf), d
 }
 
-var reGoroutine = regexp.MustCompile(`(?m)^goroutine \d+ \[([^\]]*)\]:$`)
+var reGoroutine = regexp.MustCompile(`(?m)^goroutine \d+(?: gp=\S+ m=\S+(?: mp=\S+)?)? \[([^\]]*)\]:$`)
 
 // classifyDeath turns the stderr of a dead child into (kind, site).
 func classifyDeath(d *died) (kind, site, head string) {
@@ -345,8 +369,36 @@ func classifyDeath(d *died) (kind, site, head string) {
 		return kind, "unknown", firstLines(s, 12)
 	}
 	rest := s[idx:]
+	if strings.Contains(rest, "stack overflow") || strings.Contains(rest, "goroutine stack exceeds") {
+		// the innermost frame is accidental: name the function that recurses
+		return kind, recursingSite(rest), firstLines(rest, 14)
+	}
 	// first goroutine block after the message is the crashing one
 	return kind, SiteOf(rest), firstLines(rest, 14)
+}
+
+// recursingSite returns the repository function that occurs most often in the (elided) trace.
+func recursingSite(stack string) string {
+	lines := strings.Split(stack, "\n")
+	cnt := map[string]int{}
+	for i := range lines {
+		if reFrame.MatchString(lines[i]) {
+			end := i + 2
+			if end > len(lines) {
+				end = len(lines)
+			}
+			if st := SiteOf(strings.Join(lines[i:end], "\n")); st != "unknown" {
+				cnt[st]++
+			}
+		}
+	}
+	best, bn := "unknown", 0
+	for k, v := range cnt {
+		if v > bn || (v == bn && k < best) {
+			best, bn = k, v
+		}
+	}
+	return best
 }
 
 func firstLines(s string, n int) string {
@@ -459,6 +511,16 @@ func Run(out *verifutil.Out, inputs []Input, cfg Config) Summary {
 		}
 		out.Fail(sig, fmt.Sprintf("child process died (%s) in target %s: %s ; %s", d.how, tgt, head, describe(in)))
 	}
+	hangs := map[string]int{}
+	skipped := map[string]bool{}
+	skipList := func() []string {
+		var l []string
+		for t := range skipped {
+			l = append(l, t)
+		}
+		sort.Strings(l)
+		return l
+	}
 	pending := make([]int, len(inputs))
 	for i := range pending {
 		pending[i] = i
@@ -476,8 +538,7 @@ func Run(out *verifutil.Out, inputs []Input, cfg Config) Summary {
 		for i, id := range ids {
 			batch[i] = inputs[id]
 		}
-		to := time.Duration(cfg.BatchBaseS)*time.Second + time.Duration(cfg.PerInputMS*n)*time.Millisecond
-		cr, d := runChild(cfg, batch, to)
+		cr, d := runChild(cfg, batch, time.Duration(cfg.StallS)*time.Second, skipList())
 		var doneIDs []int
 		for _, id := range ids {
 			if cr.ended[id] {
@@ -514,9 +575,18 @@ func Run(out *verifutil.Out, inputs []Input, cfg Config) Summary {
 			d = &died{how: "exit"}
 		}
 		in := byID(culprit)
-		cr2, d2 := runChild(cfg, []Input{*in}, time.Duration(cfg.SingleS)*time.Second)
+		// confirm alone (a hang gets twice the time: the batch may just have been slow)
+		cr2, d2 := runChild(cfg, []Input{*in}, 2*time.Duration(cfg.StallS)*time.Second, skipList())
 		if d2 != nil {
 			reportDeath(in, cr2, d2, true)
+			if d2.how == "timeout" {
+				t := cr2.lastTgt[culprit]
+				hangs[t]++
+				if hangs[t] >= cfg.MaxHangs && !skipped[t] {
+					skipped[t] = true
+					out.Count("skipped-after-hangs:" + t)
+				}
+			}
 		} else if d.how == "timeout" && cr2.ended[culprit] {
 			// slow in the batch but fine alone: not a hang; take the result
 			absorb(cr2, []int{culprit})
